@@ -110,21 +110,34 @@ def build_source(rng, size, funcs):
 
 
 def decorate(rng, schema, funcs):
+    """Code-built attributes. About half of the object types get their resolvers / subscriptions / default resolver through
+    the schema's REGISTRIES (`register_resolver`, `register_subscription`, `register_default_resolver`), the others by
+    direct assignment — so that some types have registry entries at derivation time and some have none."""
     from py_gql.schema import InputObjectType, InterfaceType, ObjectType, UnionType
     for t in schema.types.values():
         if t.name.startswith("__") or t.name in SCALARS:
             continue
+        via_registry = isinstance(t, ObjectType) and rng.random() < 0.5
         if isinstance(t, (InterfaceType, UnionType)):
             t.resolve_type = funcs.make(universal_resolve_type)
         if isinstance(t, ObjectType):
             if rng.random() < 0.5:
-                t.default_resolver = funcs.make(universal_resolver)
+                if via_registry:
+                    schema.register_default_resolver(t.name, funcs.make(universal_resolver))
+                else:
+                    t.default_resolver = funcs.make(universal_resolver)
         if isinstance(t, (ObjectType, InterfaceType)):
             for f in t.fields:
                 if rng.random() < 0.6:
-                    f.resolver = funcs.make(universal_resolver)
+                    if via_registry:
+                        schema.register_resolver(t.name, f.name, funcs.make(universal_resolver))
+                    else:
+                        f.resolver = funcs.make(universal_resolver)
                 if rng.random() < 0.25:
-                    f.subscription_resolver = funcs.make(universal_resolver)
+                    if via_registry:
+                        schema.register_subscription(t.name, f.name, funcs.make(universal_resolver))
+                    else:
+                        f.subscription_resolver = funcs.make(universal_resolver)
                 if rng.random() < 0.3:
                     f.python_name = "py_" + f.name
                 for a in f.arguments:
@@ -139,6 +152,77 @@ def decorate(rng, schema, funcs):
             if d.name.startswith("dir") and rng.random() < 0.3:
                 a.python_name = "pd_" + a.name
     schema.default_resolver = funcs.make(universal_resolver)
+
+
+def registry_digest(schema):
+    """The resolver REGISTRIES of a schema (outer keys, inner keys, identity of the callables) + the schema-level default."""
+    return {
+        "resolvers": {t: {f: _fid(fn) for f, fn in sorted(d.items())} for t, d in sorted(schema.resolvers.items())},
+        "subscriptions": {t: {f: _fid(fn) for f, fn in sorted(d.items())} for t, d in sorted(schema.subscriptions.items())},
+        "default_resolvers": {t: _fid(fn) for t, fn in sorted(schema.default_resolvers.items())},
+        "default_resolver": _fid(schema.default_resolver),
+    }
+
+
+def post_derivation_registrations(derived, source, funcs, rng):
+    """Use the DERIVED schema the way an application does after deriving it: register resolvers, subscriptions and default
+    resolvers (method and decorator forms) on object types that already had registry entries in the source at derivation
+    time and on types that had none. Returns (what was done, undo) — `undo()` puts the derived schema back (the source
+    must be compared BEFORE calling it)."""
+    from py_gql.schema import ObjectType
+    objs = [t for n, t in derived.types.items() if isinstance(t, ObjectType) and not n.startswith("__") and t.fields]
+    with_entry = [t for t in objs if t.name in source.resolvers or t.name in source.subscriptions or t.name in source.default_resolvers]
+    without = [t for t in objs if t not in with_entry]
+    chosen = []
+    if with_entry:
+        chosen.append(rng.choice(with_entry))
+    if without:
+        chosen.append(rng.choice(without))
+    done, undo = [], []
+
+    def keep_inner(reg, t, f):
+        had_outer = t in reg
+        had = had_outer and f in reg[t]
+        old = reg[t][f] if had else None
+
+        def restore():
+            if had:
+                reg[t][f] = old
+            elif t in reg:
+                reg[t].pop(f, None)
+                if not had_outer:
+                    del reg[t]
+        return restore
+
+    for t in chosen:
+        f = rng.choice(list(t.fields))
+        fn1, fn2, fn3 = (funcs.make(universal_resolver) for _ in range(3))
+        old = (f.resolver, f.subscription_resolver, t.default_resolver, derived.default_resolvers.get(t.name, _fid))
+        undo.append(keep_inner(derived.resolvers, t.name, f.name))
+        undo.append(keep_inner(derived.subscriptions, t.name, f.name))
+
+        def restore_attrs(t=t, f=f, old=old):
+            f.resolver, f.subscription_resolver, t.default_resolver = old[0], old[1], old[2]
+            if old[3] is _fid:
+                derived.default_resolvers.pop(t.name, None)
+            else:
+                derived.default_resolvers[t.name] = old[3]
+        undo.append(restore_attrs)
+        if rng.random() < 0.5:
+            derived.register_resolver(t.name, f.name, fn1, allow_override=True)
+        else:
+            derived.resolver("%s.%s" % (t.name, f.name), allow_override=True)(fn1)
+        if rng.random() < 0.5:
+            derived.register_subscription(t.name, f.name, fn2, allow_override=True)
+        else:
+            derived.subscription("%s.%s" % (t.name, f.name), allow_override=True)(fn2)
+        derived.register_default_resolver(t.name, fn3, allow_override=True)
+        done.append("%s.%s (%s)" % (t.name, f.name, "type had registry entries in the source" if t in with_entry else "type had none"))
+
+    def undo_all():
+        for u in reversed(undo):
+            u()
+    return done, undo_all
 
 
 # ---------------------------------------------------------------------------
